@@ -15,7 +15,7 @@ from ..real import BartiqCompilationError, BartiqPreprocessingError, evaluate, e
 
 LEVEL = "proof"
 CASE_BUDGET_S = 0   # this module runs its own alarms (termination is what it examines)
-TIMEOUT_S = 60
+TIMEOUT_S = 60      # seconds of process CPU time (ITIMER_VIRTUAL)
 
 
 def gen(seed, extra):
@@ -135,7 +135,7 @@ def oracle(case, res, extra):
     if case.status == "schema":
         return
     rng = random.Random(case.seed * 53 + 2)
-    signal.signal(signal.SIGALRM, _alarm)
+    signal.signal(signal.SIGVTALRM, _alarm)
     # (i) well-formed: outcome class
     wf = True
     try:
@@ -158,7 +158,7 @@ def oracle(case, res, extra):
                 asg = {n: rng.choice([rng.randint(0, 9), rng.randint(1, 5), "zz*2", round(rng.uniform(0.5, 4), 2)]) for n in rng.sample(names, rng.randint(0, len(names)))}
                 if k == 2:
                     asg = {n: rng.randint(1, 6) for n in names}
-                signal.alarm(TIMEOUT_S)
+                signal.setitimer(signal.ITIMER_VIRTUAL, TIMEOUT_S)
                 try:
                     evaluate(cr, asg)
                     res.stats["evaluate_ok"] += 1
@@ -167,7 +167,7 @@ def oracle(case, res, extra):
                 except _Timeout:
                     # huge intermediate numbers (towers of powers) are slow, not divergent: retry with the smallest values
                     small = {n: 1 for n in asg}
-                    signal.alarm(TIMEOUT_S)
+                    signal.setitimer(signal.ITIMER_VIRTUAL, TIMEOUT_S)
                     try:
                         evaluate(cr, small)
                         res.stats["evaluate_slow_on_large_values"] += 1
@@ -177,13 +177,13 @@ def oracle(case, res, extra):
                     except Exception:
                         pass
                     finally:
-                        signal.alarm(0)
+                        signal.setitimer(signal.ITIMER_VIRTUAL, 0)
                 except Exception as e:
                     res.violation("failing-input", f"evaluate raised {type(e).__name__} on a well-formed compiled routine", {"qref": case.qref, "assignments_in_order": list(asg.items())},
                                   repr(e)[:300], "a result or bartiq's own error")
                     return
                 finally:
-                    signal.alarm(0)
+                    signal.setitimer(signal.ITIMER_VIRTUAL, 0)
             kinds = set()
 
             def scan(n, d=0):
